@@ -41,6 +41,25 @@ Theorem C13_multipleOf_integer_exact : forall N value ok, exact_iface N value ok
 Proof. exact mult_native_int_exact. Qed.
 Print Assumptions C13_multipleOf_integer_exact.
 
+(* json.Number (a document decoded with UseNumber): against a numeric type the schema validator converts it first -
+   Int64() when the type list names integer, Float64() otherwise - and from there on it is judged as that int64 / float64:
+   the carrier theorems above apply to it through these two equations *)
+Theorem C13_json_number_is_judged_as_the_int64_it_converts_to :
+  forall OR N opt rec_sp s p q lit z af, contains k_integer (s_types s) = true ->
+  sv_body OR N opt rec_sp s p q (VJnum lit (Some z) af) = sv_body OR N opt rec_sp s p q (VInt KInt64 z).
+Proof.
+  intros OR N opt rec_sp s p q lit z af H. unfold sv_body, types_numeric. rewrite H, orb_true_r. reflexivity.
+Qed.
+Print Assumptions C13_json_number_is_judged_as_the_int64_it_converts_to.
+
+Theorem C13_json_number_is_judged_as_the_float64_it_converts_to :
+  forall OR N opt rec_sp s p q lit ai f, contains k_integer (s_types s) = false -> contains k_number (s_types s) = true ->
+  sv_body OR N opt rec_sp s p q (VJnum lit ai (Some f)) = sv_body OR N opt rec_sp s p q (VFlt false f).
+Proof.
+  intros OR N opt rec_sp s p q lit ai f H1 H2. unfold sv_body, types_numeric. rewrite H1, H2. reflexivity.
+Qed.
+Print Assumptions C13_json_number_is_judged_as_the_float64_it_converts_to.
+
 (* the binary64 instance that the correspondence run executes against Go satisfies the interface (Base/F64Exact.v: the order
    is the order of the values, the integer value is the integer value, integers within +-2^53 convert exactly): the
    theorems above hold of the very model that is tied to the code *)
